@@ -505,7 +505,29 @@ def validate_any(b):
     return None, [], ["unknown container magic %r" % bytes(b[:4])]
 
 
-def foreign_variant(b, longloca=False, bit11=False, order_seed=None, glyph_pad4=False, loosebbox=None):
+def _last_component(glyf, a, e):
+    """Offset of the flags word of the last component of the composite glyph stored at [a, e), and the end
+    of its component records; None when the records do not parse or instructions follow already."""
+    p = a + 10
+    while True:
+        if p + 4 > e:
+            return None
+        fl = u16(glyf, p)
+        q = p + 4 + (4 if fl & 1 else 2)
+        if fl & 8:
+            q += 2
+        elif fl & 0x40:
+            q += 4
+        elif fl & 0x80:
+            q += 8
+        if q > e:
+            return None
+        if not fl & 0x20:
+            return (p, q) if not fl & 0x100 else None
+        p = q
+
+
+def foreign_variant(b, longloca=False, bit11=False, order_seed=None, glyph_pad4=False, loosebbox=None, compflags=None, emptyinstr=None):
     """The same font as another conforming writer could have stored it: long 'loca' offsets although
     the glyph data is small (the reference WOFF2 decoder does this), head.flags bit 11 set (any font
     that went through WOFF2), table data laid out in another physical order. Plain single sfnt with
@@ -551,6 +573,59 @@ def foreign_variant(b, longloca=False, bit11=False, order_seed=None, glyph_pad4=
                     tabs["glyf"] = bytes(glyf)
                     fx0, fy0, fx1, fy1 = struct.unpack_from(">4h", head, 36)
                     struct.pack_into(">4h", head, 36, max(-32768, fx0 - 9), fy0, fx1, min(32767, fy1 + 9))
+                    changed = True
+        if emptyinstr is not None and all(t in tabs for t in ("loca", "glyf", "maxp")) and i16(head, 50) == 0 and len(tabs["maxp"]) >= 6:
+            # composites that announce instructions (WE_HAVE_INSTRUCTIONS) and carry none (numInstr = 0), as
+            # some hinting tools leave them; glyf and loca are rewritten with the two extra bytes
+            import random
+
+            rr = random.Random(emptyinstr)
+            ng = u16(tabs["maxp"], 4)
+            loca = tabs["loca"]
+            if len(loca) == 2 * (ng + 1):
+                offs = [2 * o for o in struct.unpack(">%dH" % (ng + 1), loca)]
+                glyf = tabs["glyf"]
+                out, noffs, n_done = bytearray(), [0], 0
+                ok = offs[-1] <= len(glyf) and all(x <= y for x, y in zip(offs, offs[1:]))
+                for gi in range(ng if ok else 0):
+                    a, e = offs[gi], offs[gi + 1]
+                    g = bytearray(glyf[a:e])
+                    if e - a >= 16 and i16(glyf, a) < 0 and rr.random() < 0.6:
+                        lc = _last_component(glyf, a, e)
+                        if lc is not None:
+                            p, q = lc[0] - a, lc[1] - a
+                            struct.pack_into(">H", g, p, u16(g, p) | 0x100)
+                            g = g[:q] + b"\0\0"
+                            n_done += 1
+                    if len(g) % 2:
+                        g += b"\0"
+                    out += g
+                    noffs.append(len(out))
+                if ok and n_done and noffs[-1] < 0x20000:
+                    tabs["glyf"] = bytes(out)
+                    tabs["loca"] = struct.pack(">%dH" % (ng + 1), *[o // 2 for o in noffs])
+                    changed = True
+        if compflags is not None and all(t in tabs for t in ("loca", "glyf", "maxp")) and i16(head, 50) == 0 and len(tabs["maxp"]) >= 6:
+            # component flags other writers set: SCALED_COMPONENT_OFFSET (0x0800) or UNSCALED_COMPONENT_OFFSET
+            # (0x1000) on the components of some composites (valid on any component; only one of the two)
+            import random
+
+            rr = random.Random(compflags)
+            ng = u16(tabs["maxp"], 4)
+            loca = tabs["loca"]
+            if len(loca) == 2 * (ng + 1):
+                offs = [2 * o for o in struct.unpack(">%dH" % (ng + 1), loca)]
+                glyf = bytearray(tabs["glyf"])
+                n_done = 0
+                for gi in range(ng):
+                    a, e = offs[gi], offs[gi + 1]
+                    if e - a >= 16 and e <= len(glyf) and i16(glyf, a) < 0 and rr.random() < 0.6:
+                        fl = u16(glyf, a + 10)
+                        if not fl & 0x1800:
+                            struct.pack_into(">H", glyf, a + 10, fl | rr.choice([0x0800, 0x0800, 0x1000]))
+                            n_done += 1
+                if n_done:
+                    tabs["glyf"] = bytes(glyf)
                     changed = True
         if bit11 and not u16(head, 16) & 0x0800:
             head[16:18] = struct.pack(">H", u16(head, 16) | 0x0800)
